@@ -386,6 +386,43 @@ func (e *Exec) exec(c *Cmd, sl *slots, gsuffix string) (string, bool) {
 			return "err:other", true
 		}
 		return "same=" + b01(bytes.Equal(fb, e.bufs[c.Pos[1]])), true
+	case "corruptdict":
+		// corruptdict <newfile> <file> <field> how=ver|len0: a copy of the file in which the term
+		// dictionary of one field no longer loads (the format has no per-section checksum and Open
+		// does not verify the footer CRC, so such a file opens)
+		fb, err := os.ReadFile(e.path(c.Pos[1]))
+		if err != nil {
+			return "err:other", true
+		}
+		sg, err := (&zap.ZapPlugin{}).Open(e.path(c.Pos[1]))
+		if err != nil {
+			return errKind(err), true
+		}
+		addr, err := sg.(*zap.Segment).DictAddr(c.Pos[2])
+		sg.Close()
+		if err != nil || addr == 0 || addr >= uint64(len(fb)) {
+			return "nodict", true
+		}
+		vlen, n := binary.Uvarint(fb[addr:])
+		if n <= 0 || vlen < 16 {
+			return "nodict", true
+		}
+		switch c.str("how", "ver") {
+		case "len0":
+			// the length varint rewritten as a (non-minimal) zero of the same width
+			for k := 0; k < n-1; k++ {
+				fb[int(addr)+k] = 0x80
+			}
+			fb[int(addr)+n-1] = 0
+		default:
+			for k := 0; k < 8; k++ {
+				fb[int(addr)+n+k] = 0xff // the FST's format version
+			}
+		}
+		if err := os.WriteFile(e.path(c.Pos[0]), fb, 0600); err != nil {
+			return "err:io", true
+		}
+		return "ok", true
 	case "footer":
 		return e.doFooter(c), true
 	case "dumpfile":
